@@ -2,8 +2,9 @@
 CONSTANTS
   Names = {"A", "Bb", "C1"}
   MaxComps = 5
+  SignTypes = "connection"
   PairComps = 2
 INIT Init
 NEXT Next
-INVARIANTS DecomposeInv SortKeyInv PosSignInv
+INVARIANTS DecomposeInv SortKeyInv PosSignInv TypesInv MechInv TypesSortInv
 CHECK_DEADLOCK FALSE
